@@ -26,7 +26,7 @@ import (
 )
 
 type op struct {
-	Kind string // startw | stopw | killw | tick | ack | partial | faildeploy | wait
+	Kind string // startw | stopw | killw | tick | ack | partial | faildeploy | wait | deploywin (another worker starts; the deployment that follows in this step, if any, is slow and member W leaves while it runs: N even = deregisters, odd = stops heartbeating)
 	W    int    // worker index 0..5
 	N    int
 }
@@ -40,7 +40,7 @@ func gen(rt *rapid.T) prog {
 	n := rapid.IntRange(3, 40).Draw(rt, "n")
 	for i := 0; i < n; i++ {
 		p.Ops = append(p.Ops, op{
-			Kind: rapid.SampledFrom([]string{"startw", "startw", "startw", "stopw", "killw", "tick", "tick", "ack", "ack", "partial", "faildeploy", "wait"}).Draw(rt, "kind"),
+			Kind: rapid.SampledFrom([]string{"startw", "startw", "startw", "stopw", "killw", "tick", "tick", "ack", "ack", "partial", "faildeploy", "wait", "deploywin"}).Draw(rt, "kind"),
 			W:    rapid.IntRange(0, 5).Draw(rt, "w"),
 			N:    rapid.IntRange(0, 3).Draw(rt, "n"),
 		})
@@ -66,6 +66,23 @@ type world struct {
 	mu       sync.Mutex
 	calls    []call
 	failNext map[string]bool
+	// a deployment window: Deploy calls block until the harness lets them go
+	cond       *sync.Cond
+	holdDeploy bool
+	blocked    int
+}
+
+// gate blocks a Deploy call while the window is held.
+func (w *world) gate() {
+	w.mu.Lock()
+	if w.holdDeploy {
+		w.blocked++
+		w.cond.Broadcast()
+		for w.holdDeploy {
+			w.cond.Wait()
+		}
+	}
+	w.mu.Unlock()
 }
 
 func (w *world) rec(c call) {
@@ -97,6 +114,7 @@ func (f *fakeOp) Deploy(ctx context.Context, r *workerpb.DeployOperatorRequest) 
 	}
 	c.Round = strings.Join(c.Ops, ",") + "|" + strings.Join(c.SRs, ",")
 	f.w.rec(c)
+	f.w.gate()
 	f.w.mu.Lock()
 	fail := f.w.failNext[f.id]
 	delete(f.w.failNext, f.id)
@@ -125,6 +143,7 @@ func (f *fakeSR) Deploy(ctx context.Context, r *workerpb.DeploySourceRunnerReque
 		c.Ops = append(c.Ops, o.Id)
 	}
 	f.w.rec(c)
+	f.w.gate()
 	f.w.mu.Lock()
 	fail := f.w.failNext[f.id]
 	delete(f.w.failNext, f.id)
@@ -190,6 +209,13 @@ type worker struct {
 
 func exec(p prog, c *hx.Case) error {
 	w := &world{failNext: map[string]bool{}}
+	w.cond = sync.NewCond(&w.mu)
+	defer func() { // never leave a Deploy call blocked
+		w.mu.Lock()
+		w.holdDeploy = false
+		w.cond.Broadcast()
+		w.mu.Unlock()
+	}()
 	clock := hx.NewClock()
 	loc := coord.NewLoc("/job")
 	errc := make(chan error, 64)
@@ -228,14 +254,80 @@ func exec(p prog, c *hx.Case) error {
 			time.Sleep(150 * time.Microsecond)
 		}
 	}
+	armed := false
+	var victim *worker
+	victimKill := false
+	var async sync.WaitGroup
+	jobCall := func(f func()) {
+		// (jobs.Job runs start() in a goroutine of its own: its task queue keeps
+		// taking calls while a deployment is blocked, so the calls can be made in order)
+		f()
+	}
+	windowLeft := map[string]bool{} // members that left while the round they belong to was being deployed
+	windows := 0
 	heartbeat := func() {
 		for _, x := range ws {
 			if x.up {
-				job.HandleRegisterOperator(&jobpb.NodeIdentity{Id: x.opID, Host: x.opID})
-				job.HandleRegisterSourceRunner(&jobpb.NodeIdentity{Id: x.srID, Host: x.srID})
+				x := x
+				jobCall(func() {
+					job.HandleRegisterOperator(&jobpb.NodeIdentity{Id: x.opID, Host: x.opID})
+					job.HandleRegisterSourceRunner(&jobpb.NodeIdentity{Id: x.srID, Host: x.srID})
+				})
 				x.lastBeat = clock.Now()
 				x.known = true
 			}
+		}
+	}
+	// window: if a deployment is blocked now, the victim leaves, then the
+	// deployment is let go; in any case every call made so far has returned after it
+	window := func() {
+		if !armed {
+			return
+		}
+		w.mu.Lock()
+		for i := 0; i < 30 && w.blocked == 0; i++ {
+			w.mu.Unlock()
+			time.Sleep(100 * time.Microsecond)
+			w.mu.Lock()
+		}
+		hit := w.blocked > 0
+		w.mu.Unlock()
+		if hit && victim != nil && (victim.up || victim.known) {
+			x := victim
+			windowLeft[x.opID], windowLeft[x.srID] = true, true
+			x.up, x.known = false, false
+			if victimKill {
+				// it stops heartbeating; the others keep re-registering while time passes
+				for i := 0; i < 3; i++ {
+					clock.Advance(2 * time.Second)
+					heartbeat()
+					time.Sleep(100 * time.Microsecond)
+				}
+			} else {
+				jobCall(func() {
+					job.HandleDeregisterOperator(&jobpb.NodeIdentity{Id: x.opID})
+					job.HandleDeregisterSourceRunner(&jobpb.NodeIdentity{Id: x.srID})
+				})
+				time.Sleep(200 * time.Microsecond) // the calls are waiting at the job's task queue
+			}
+			windows++
+		}
+		if hit {
+			w.mu.Lock()
+			w.holdDeploy = false
+			w.blocked = 0
+			w.cond.Broadcast()
+			w.mu.Unlock()
+			async.Wait()
+			armed = false
+		} else {
+			// nothing was deployed in this step: nothing is stuck, and the window closes
+			w.mu.Lock()
+			w.holdDeploy = false
+			w.cond.Broadcast()
+			w.mu.Unlock()
+			async.Wait()
+			armed = false
 		}
 	}
 	live := func(x *worker) bool { return x.up && x.known }
@@ -263,13 +355,20 @@ func exec(p prog, c *hx.Case) error {
 		}
 		return false
 	}
+	partialRounds := map[string][]call{}
 	// examine the calls made since the last look
 	examine := func(step int) error {
 		calls := w.snapshot()
 		newCalls := calls[seen:]
 		seen = len(calls)
-		rounds := map[string][]call{}
+		// (the Deploy calls of one round come from goroutines of their own: a round
+		// may be only partly recorded at this look; the rest is carried over)
+		rounds := partialRounds
 		var order []string
+		for key := range rounds {
+			order = append(order, key)
+		}
+		sort.Strings(order)
 		for _, cl := range newCalls {
 			switch cl.Kind {
 			case "deploy-op":
@@ -299,6 +398,9 @@ func exec(p prog, c *hx.Case) error {
 						ok = true
 					}
 				}
+				if windowLeft[id] {
+					ok = true // it was registered and live when the round was formed
+				}
 				if !ok {
 					return hx.Errf("step %d: the job deployed to %s, which is not a registered, live node", step, id)
 				}
@@ -321,6 +423,7 @@ func exec(p prog, c *hx.Case) error {
 				curOps, curSRs = ops, srs
 				curHealthy = true
 				pendingCkpt, acked = 0, nil
+				delete(partialRounds, key)
 			}
 		}
 		return nil
@@ -372,6 +475,23 @@ func exec(p prog, c *hx.Case) error {
 				}
 				x.known = false
 			}
+		case "deploywin":
+			// a worker starts (which may complete an assembly); the deployment this
+			// step's registrations lead to, if any, is slow, and x leaves while it runs
+			tw := ws[(o.W+1+o.N)%len(ws)]
+			if live(tw) && member(curOps, tw.opID) && curHealthy {
+				// ... or a member of the running assembly leaves: with a standby
+				// registered the job forms a new assembly at once
+				tw.up, tw.known = false, false
+				job.HandleDeregisterOperator(&jobpb.NodeIdentity{Id: tw.opID})
+				job.HandleDeregisterSourceRunner(&jobpb.NodeIdentity{Id: tw.srID})
+			} else {
+				tw.up = true
+			}
+			armed, victim, victimKill = true, x, o.N%2 == 1
+			w.mu.Lock()
+			w.holdDeploy, w.blocked = true, 0
+			w.mu.Unlock()
 		case "faildeploy":
 			w.mu.Lock()
 			w.failNext[x.opID] = true
@@ -469,15 +589,22 @@ func exec(p prog, c *hx.Case) error {
 		// every live worker re-registers (the 3 s poller); this is also what makes
 		// the job look at its registry
 		heartbeat()
+		window()
 		settle()
 		refreshHealth()
 		if err := examine(step); err != nil {
 			return err
 		}
+		for id := range windowLeft {
+			delete(windowLeft, id)
+		}
 		refreshHealth()
 		// bounded progress: with enough live nodes and no healthy assembly a
 		// deployment must have happened by now
-		if !curHealthy && enough() && deployFailures == 0 {
+		w.mu.Lock()
+		failuresPending := len(w.failNext)
+		w.mu.Unlock()
+		if !curHealthy && enough() && failuresPending == 0 {
 			heartbeat()
 			settle()
 			if err := examine(step); err != nil {
@@ -513,6 +640,7 @@ func exec(p prog, c *hx.Case) error {
 	c.LabelIf(kills > 0, "heartbeat-loss")
 	c.LabelIf(killsDuringCkpt > 0, "loss-during-checkpoint")
 	c.LabelIf(standby > 0, "standby-present")
+	c.LabelIf(windows > 0, "member-left-while-its-round-was-being-deployed")
 	c.LabelIf(ckptsAfterRecovery > 0, "checkpoint-after-recovery")
 	if recoveries > 0 && ckptsAfterRecovery > 0 {
 		c.NonTrivial()
@@ -521,5 +649,5 @@ func exec(p prog, c *hx.Case) error {
 }
 
 func TestPropJob(t *testing.T) {
-	hx.Run(t, hx.Spec{Prop: "C15", Persist: true, Rule: "the real jobs.Job (WorkerCount 1..3, FrozenClock, journaling StorageLocation, harness source splitter) with recording fake operators and source runners: 3..40 steps of starting workers, graceful stops (deregistration), kills (heartbeats stop, clock passes the deadline), checkpoint-timer ticks, full or partial acknowledgements, injected Deploy failures; after every step all live workers re-register and the recorded calls are examined: every deployment addresses exactly WorkerCount operators and runners that are registered and live, hands over the latest completed checkpoint, StartCheckpoint only goes to the current healthy assembly, a tick on a healthy idle assembly starts a checkpoint, full acknowledgement publishes a snapshot, and with enough live workers a lost assembly is replaced (bounded progress); non-trivial = >=1 recovery followed by a completed checkpoint"}, gen, exec)
+	hx.Run(t, hx.Spec{Prop: "C15", Persist: true, Rule: "the real jobs.Job (WorkerCount 1..3, FrozenClock, journaling StorageLocation, harness source splitter) with recording fake operators and source runners: 3..40 steps of starting workers, graceful stops (deregistration), kills (heartbeats stop, clock passes the deadline), checkpoint-timer ticks, full or partial acknowledgements, injected Deploy failures, deployment windows (the Deploy calls of the next round block; meanwhile a drawn member deregisters or stops heartbeating; then the round is let go); after every step all live workers re-register and the recorded calls are examined: every deployment addresses exactly WorkerCount operators and runners that are registered and live, hands over the latest completed checkpoint, StartCheckpoint only goes to the current healthy assembly, a tick on a healthy idle assembly starts a checkpoint, full acknowledgement publishes a snapshot, and with enough live workers a lost assembly is replaced (bounded progress); non-trivial = >=1 recovery followed by a completed checkpoint"}, gen, exec)
 }
